@@ -11,6 +11,7 @@ import (
 	"fmt"
 	"strings"
 	"sync"
+	"sync/atomic"
 	"time"
 
 	"github.com/kercylan98/vivid"
@@ -222,6 +223,97 @@ func askScenario(name string) string {
 			}
 		}
 		return registryEmpty(name)
+	case "asker-dies-racing":
+		// the asker is killed while half of its 3000 outstanding Asks are being answered from another goroutine:
+		// the kill path walks a snapshot of the registrations while replies remove entries from it. Whatever the
+		// interleaving, once the asker has terminated every Ask has completed — with its reply or with actor-dead.
+		const n = 3000
+		var kmu sync.Mutex
+		var senders []vivid.ActorRef
+		keeper, _ := sys.ActorOf(vivid.ActorFN(func(c vivid.ActorContext) {
+			switch m := c.Message().(type) {
+			case *askQ:
+				kmu.Lock()
+				senders = append(senders, c.Sender())
+				kmu.Unlock()
+			case string:
+				if m == "answer-evens" {
+					kmu.Lock()
+					ss := append([]vivid.ActorRef(nil), senders...)
+					kmu.Unlock()
+					for i, s := range ss {
+						if i%2 == 0 {
+							c.Tell(s, &askQ{i + 5000})
+						}
+					}
+				}
+			}
+		}))
+		var futs []vivid.Future[vivid.Message]
+		gone := make(chan struct{})
+		racer, _ := sys.ActorOf(vivid.ActorFN(func(c vivid.ActorContext) {
+			switch m := c.Message().(type) {
+			case *askGo:
+				mu.Lock()
+				for i := 0; i < m.Holes; i++ {
+					futs = append(futs, c.Ask(keeper, &askQ{i}, 20*time.Second))
+				}
+				mu.Unlock()
+				asked <- struct{}{}
+			case *vivid.OnKilled:
+				if m.Ref.Equals(c.Ref()) {
+					close(gone)
+				}
+			}
+		}), vivid.WithActorName("racer"))
+		sys.Tell(racer, &askGo{Holes: n})
+		<-asked
+		for dl := time.Now().Add(3 * time.Second); time.Now().Before(dl); time.Sleep(5 * time.Millisecond) {
+			kmu.Lock()
+			k := len(senders)
+			kmu.Unlock()
+			if k == n {
+				break
+			}
+		}
+		sys.Tell(keeper, "answer-evens")
+		sys.Kill(racer, false, "askrt")
+		select {
+		case <-gone:
+		case <-time.After(3 * time.Second):
+			return "ASKER-DEAD: the asking actor did not terminate within 3 s"
+		}
+		mu.Lock()
+		fs := append([]vivid.Future[vivid.Message](nil), futs...)
+		mu.Unlock()
+		var pending, wrong int32
+		var wg sync.WaitGroup
+		for i, f := range fs {
+			wg.Add(1)
+			go func(i int, f vivid.Future[vivid.Message]) {
+				defer wg.Done()
+				res := make(chan error, 1)
+				var r vivid.Message
+				go func() {
+					var err error
+					r, err = f.Result()
+					res <- err
+				}()
+				select {
+				case err := <-res:
+					if q, ok := r.(*askQ); !(isDead(err) || (err == nil && ok && q.N == i+5000)) {
+						atomic.AddInt32(&wrong, 1)
+					}
+				case <-time.After(2 * time.Second):
+					atomic.AddInt32(&pending, 1)
+				}
+			}(i, f)
+		}
+		wg.Wait()
+		if pending > 0 || wrong > 0 {
+			return fmt.Sprintf("ASKER-DEAD: the asking actor terminated while replies to half of its %d outstanding Asks were arriving: 2 s later %d Ask(s) are still pending and %d completed with something other than their own reply or the actor-dead error", n, pending, wrong)
+		}
+		return ""
 	case "close":
 		f := sys.Ask(slow, &askQ{1}, time.Second)
 		f.Close(fmt.Errorf("caller gave up"))
@@ -255,7 +347,7 @@ func (e *askrtEngine) Exec(line string) (string, string) {
 	return "-", ""
 }
 
-var askScenarios = []string{"result-window", "wait-window", "reply", "timeout", "late-reply", "close", "asker-dies-1-0", "asker-dies-3-0", "asker-dies-1-1", "asker-dies-1-3", "asker-dies-2-3", "asker-dies-3-1", "asker-restarts"}
+var askScenarios = []string{"result-window", "wait-window", "reply", "timeout", "late-reply", "close", "asker-dies-1-0", "asker-dies-3-0", "asker-dies-1-1", "asker-dies-1-3", "asker-dies-2-3", "asker-dies-3-1", "asker-restarts", "asker-dies-racing"}
 
 func (e *askrtEngine) Generate(c *Ctx) {
 	reps := 1
